@@ -13,6 +13,8 @@
     self-destruct to self burns (why "≤", not "=") ......... suicide_to_self_burns
 -/
 import Aqv.Lemmas.Supply
+import Aqv.Lemmas.TxVmInv
+import Aqv.Lemmas.TxVm
 import Aqv.Props.C06
 namespace Aqv.Props.C05
 open Aqv.Tx Aqv.Supply
@@ -127,17 +129,29 @@ theorem tx_conserves {ρ : Type} {env : Env ρ} (hE : EvmOk env) {m : Msg} {gp :
     rw [← Nat.add_mul]; congr 1; omega
   omega
 
+/-- an EVM that never increases Σ (whatever the reason). -/
+def SupplyEvm (env : Env (List Addr)) : Prop := ∀ m g w, total (env.run m g w).world.bal ≤ total w.bal
+
+/-- a trace EVM is one, by `prim_trace_nonincreasing`. -/
+theorem traceEvm_supplyEvm {env : Env (List Addr)} (hT : TraceEvm env) : SupplyEvm env := by
+  intro m g w
+  obtain ⟨ops, hb, _⟩ := hT m g w
+  rw [hb]; exact (prim_trace_nonincreasing (toS w) ops).1
+
+theorem tx_supply_nonincreasing_of_supplyEvm {env : Env (List Addr)} (hE : EvmOk env) (hS : SupplyEvm env) {m : Msg} {gp : Nat} {w : SWorld}
+    {r : TxOk (List Addr)} (h : transitionDb env m gp w = .ok r) :
+    total r.world.bal ≤ total w.bal ∧ total (finWorld r.world).bal ≤ total w.bal := by
+  obtain ⟨ig, _, h1, h2, _⟩ := tx_conserves hE h
+  have h4 : total (evmOut env m w ig).world.bal ≤ total (preWorld m w).bal := hS m (m.gas - ig) (preWorld m w)
+  have h5 : total r.world.bal ≤ total w.bal := by omega
+  exact ⟨h5, Nat.le_trans (total_finalise_le _) h5⟩
+
 /-- **tx_supply_nonincreasing.** With an EVM whose balance effects are a word over the alphabet, a whole transaction
     (buy gas, execute, refund, pay the fee, Finalise) never increases Σ. -/
 theorem tx_supply_nonincreasing {env : Env (List Addr)} (hE : EvmOk env) (hT : TraceEvm env) {m : Msg} {gp : Nat} {w : SWorld} {r : TxOk (List Addr)}
     (h : transitionDb env m gp w = .ok r) :
-    total r.world.bal ≤ total w.bal ∧ total (finWorld r.world).bal ≤ total w.bal := by
-  obtain ⟨ig, _, h1, h2, _⟩ := tx_conserves hE h
-  obtain ⟨ops, hb, _⟩ := hT m (m.gas - ig) (preWorld m w)
-  have h3 := (prim_trace_nonincreasing (toS (preWorld m w)) ops).1
-  have h4 : total (evmOut env m w ig).world.bal ≤ total (preWorld m w).bal := by unfold evmOut; rw [hb]; exact h3
-  have h5 : total r.world.bal ≤ total w.bal := by omega
-  exact ⟨h5, Nat.le_trans (total_finalise_le _) h5⟩
+    total r.world.bal ≤ total w.bal ∧ total (finWorld r.world).bal ≤ total w.bal :=
+  tx_supply_nonincreasing_of_supplyEvm hE (traceEvm_supplyEvm hT) h
 
 /-- … and conserves it exactly when the EVM never self-destructs (and nothing was marked before). -/
 theorem tx_supply_exact {env : Env (List Addr)} (hE : EvmOk env) (hT : TraceEvmNoSuicide env) {m : Msg} {gp : Nat} {w : SWorld} {r : TxOk (List Addr)}
@@ -217,7 +231,7 @@ example : total (applyHF4 [1, 3] { bal := [(1, 5), (2, 7)], nonce := [], rest :=
 
 /-! ## whole blocks -/
 
-theorem processTxs_supply_le {env : Env (List Addr)} (hE : EvmOk env) (hT : TraceEvm env) (hfin : env.fin = finWorld)
+theorem processTxs_supply_le {env : Env (List Addr)} (hE : EvmOk env) (hT : SupplyEvm env) (hfin : env.fin = finWorld)
     (ms : List Msg) (gp : Nat) (w : SWorld) (used : Nat) {b : BlockOk (List Addr)}
     (h : processTxs env ms gp w used = .ok b) : total b.world.bal ≤ total w.bal := by
   induction ms generalizing gp w used b with
@@ -233,7 +247,7 @@ theorem processTxs_supply_le {env : Env (List Addr)} (hE : EvmOk env) (hT : Trac
       | ok b' =>
         rw [hb] at h; cases h
         obtain ⟨r, hr, _, _, _, _, _, _, _, hw⟩ := C06.receipt_fields ha
-        have h1 := (tx_supply_nonincreasing hE hT hr).2
+        have h1 := (tx_supply_nonincreasing_of_supplyEvm hE hT hr).2
         have h2 := ih a.gp a.world a.usedGas hb
         rw [hw, hfin] at h2
         exact Nat.le_trans h2 h1
@@ -261,7 +275,7 @@ theorem processTxs_supply_eq {env : Env (List Addr)} (hE : EvmOk env) (hT : Trac
 
 /-- **block_supply_bound.** Applying a block — hard fork 4 at its height, any transactions over any bytecode, Finalise after
     each, then the rewards — changes Σ balances by at most the issuance scheduled for (height, uncles). -/
-theorem block_supply_bound {env : Env (List Addr)} (hE : EvmOk env) (hT : TraceEvm env) (hfin : env.fin = finWorld)
+theorem block_supply_bound_of_supplyEvm {env : Env (List Addr)} (hE : EvmOk env) (hT : SupplyEvm env) (hfin : env.fin = finWorld)
     (c : BlockCtx) (txs : List Msg) (w : SWorld) {b : BlockOk (List Addr)} (h : processBlock env c txs w = .ok b) :
     total b.world.bal ≤ total w.bal + issuance c.height c.uncles := by
   unfold processBlock process at h
@@ -281,6 +295,11 @@ theorem block_supply_bound {env : Env (List Addr)} (hE : EvmOk env) (hT : TraceE
         · exact (hf4_only_lowers c.dealloc w).1
         · exact Nat.le_refl _
       omega
+
+theorem block_supply_bound {env : Env (List Addr)} (hE : EvmOk env) (hT : TraceEvm env) (hfin : env.fin = finWorld)
+    (c : BlockCtx) (txs : List Msg) (w : SWorld) {b : BlockOk (List Addr)} (h : processBlock env c txs w = .ok b) :
+    total b.world.bal ≤ total w.bal + issuance c.height c.uncles :=
+  block_supply_bound_of_supplyEvm hE (traceEvm_supplyEvm hT) hfin c txs w h
 
 /-- **block_supply_exact_without_selfdestruct.** If no contract self-destructs in the block, Σ grows by exactly the issuance
     (relative to the state after the one-time HF4 zeroing, when the block is the HF4 block). -/
@@ -327,7 +346,7 @@ theorem block_supply_bound_hf4 {env : Env (List Addr)} (hE : EvmOk env) (hT : Tr
       rw [hp] at h; cases h
       simp only []
       rw [reward_exact]
-      have h1 := processTxs_supply_le hE hT hfin txs gp _ 0 hp
+      have h1 := processTxs_supply_le hE (traceEvm_supplyEvm hT) hfin txs gp _ 0 hp
       omega
 
 /-! ## nothing else writes balances (T-gen inventory) -/
@@ -401,5 +420,88 @@ example : sumAfter (processBlock (demoEnv 2 true) c0 [m0] w0) =
 -- at the cut-off height nothing is issued
 example : sumAfter (processBlock (demoEnv 2 false) { c0 with height := 42000000, hf4Height := none, uncles := [] } [m0] w0) = some 1000127 := by decide
 example : issuance 41999999 [] = 1000000000000000000 ∧ issuance 42000000 [(41999999, 1)] = 0 := by decide
+
+/-! ## over the modelled interpreter (C07): the machine's run is a trace over the alphabet -/
+
+open Aqv.TxVm in
+/-- every effect function of an oracle entry acts on balances as some finite word over the alphabet (which word may depend on
+    the world it is applied to). This is the semantic content of "opcodes reach balances only through the inventoried sites"
+    (`sites_eq_alphabet` checks it syntactically): SSTORE/LOG/AddRefund/SetNonce/SetCode effects are the empty word, the
+    transfer legs of CALL/CREATE are `transfer`, CreateAccount is `createAccount`, SELFDESTRUCT is `suicide`. -/
+def AlphabetEffect (f : SWorld → SWorld) : Prop :=
+  ∀ w, ∃ ops : List Op, (f w).bal = (runOps { cur := toS w, snaps := [] } ops).cur.bal
+
+def AlphabetOracle (o : Nat → Vm.StepIn SWorld) : Prop :=
+  ∀ t, AlphabetEffect (o t).eff ∧ AlphabetEffect (o t).gasEff ∧ AlphabetEffect (o t).neutralEff ∧ AlphabetEffect (o t).xferEff ∧
+    AlphabetEffect (o t).nonceEff ∧ AlphabetEffect (o t).setCodeEff
+
+theorem alphabetEffect_le {f : SWorld → SWorld} (hf : AlphabetEffect f) (B : Nat) (w : SWorld) (hw : total w.bal ≤ B) :
+    total (f w).bal ≤ B := by
+  obtain ⟨ops, h⟩ := hf w
+  rw [h]; exact Nat.le_trans (prim_trace_nonincreasing (toS w) ops).1 hw
+
+theorem alphabetOracle_effOk {o : Nat → Vm.StepIn SWorld} (hA : AlphabetOracle o) (B : Nat) :
+    TxVm.EffOk (fun w : SWorld => total w.bal ≤ B) o := by
+  intro t w hw
+  obtain ⟨a1, a2, a3, a4, a5, a6⟩ := hA t
+  exact ⟨alphabetEffect_le a1 B w hw, alphabetEffect_le a2 B w hw, alphabetEffect_le a3 B w hw, alphabetEffect_le a4 B w hw,
+    alphabetEffect_le a5 B w hw, alphabetEffect_le a6 B w hw⟩
+
+/-- **vm_run_supply_nonincreasing.** The C07 machine — `Interpreter.Run` on any frame, with any oracle (program, inputs,
+    state answers) whose effects are words over the alphabet, from any StateDB whose current world and live snapshots hold at
+    most B — ends in a StateDB whose current world and live snapshots hold at most B: the interleaving of the effects with the
+    machine's own snapshots and reverts is again a trace over the alphabet, and `prim_trace_nonincreasing` is program independent.
+    Same for `evm.Call` and `evm.Create` at depth 0 from a fresh journal: Σ after ≤ Σ before. -/
+theorem vm_run_supply_nonincreasing (venv : Vm.Env) (o : Nat → Vm.StepIn SWorld) (hA : AlphabetOracle o) (B : Nat) :
+    (∀ fuel fr db t, TxVm.DbInv (fun w : SWorld => total w.bal ≤ B) db →
+      TxVm.DbInv (fun w : SWorld => total w.bal ≤ B) (Vm.run venv o fuel fr db t).db) ∧
+    (∀ fuel k gas v (w : SWorld), total w.bal ≤ B → total (Vm.topCall venv o fuel k gas v ⟨w, [], 0⟩).db.cur.bal ≤ B) ∧
+    (∀ fuel gas (w : SWorld), total w.bal ≤ B → total (Vm.topCreate venv o fuel gas ⟨w, [], 0⟩).db.cur.bal ≤ B) := by
+  have hO := alphabetOracle_effOk hA B
+  refine ⟨fun fuel fr db t h => TxVm.run_inv venv hO fuel fr db t h, fun fuel k gas v w hw => ?_, fun fuel gas w hw => ?_⟩
+  · exact (TxVm.topCall_inv venv hO fuel k gas v (db := ⟨w, [], 0⟩) ⟨hw, fun _ h => by cases h⟩).cur
+  · exact (TxVm.topCreate_inv venv hO fuel gas (db := ⟨w, [], 0⟩) ⟨hw, fun _ h => by cases h⟩).cur
+
+/-- the C06 environment over the machine never increases Σ. -/
+theorem vmEnv_supplyEvm (venv : Vm.Env) (orc : TxVm.Oracle (List Addr)) (hA : ∀ m g w, AlphabetOracle (orc m g w))
+    (refund : SWorld → Nat) (cb : Addr) : SupplyEvm (TxVm.vmEnv venv orc refund finWorld cb) := by
+  intro m g w
+  show total (TxVm.machine venv orc m g w).db.cur.bal ≤ total w.bal
+  unfold TxVm.machine
+  cases m.to with
+  | none => exact (vm_run_supply_nonincreasing venv _ (hA m g w) (total w.bal)).2.2 _ _ w (Nat.le_refl _)
+  | some t => exact (vm_run_supply_nonincreasing venv _ (hA m g w) (total w.bal)).2.1 _ _ _ _ w (Nat.le_refl _)
+
+/-- **tx_supply_nonincreasing_over_vm.** `TransitionDb` over the modelled interpreter (no `EvmOk`, no `TraceEvm` hypothesis):
+    buy gas, run the C07 machine, refund, pay the fee, Finalise — Σ never increases. -/
+theorem tx_supply_nonincreasing_over_vm (venv : Vm.Env) (hE : Vm.EnvOK venv) (orc : TxVm.Oracle (List Addr)) (hO : TxVm.OracleOk orc)
+    (hA : ∀ m g w, AlphabetOracle (orc m g w)) (refund : SWorld → Nat) (cb : Addr) {m : Msg} {gp : Nat} {w : SWorld} {r : TxOk (List Addr)}
+    (h : transitionDb (TxVm.vmEnv venv orc refund finWorld cb) m gp w = .ok r) :
+    total r.world.bal ≤ total w.bal ∧ total (finWorld r.world).bal ≤ total w.bal :=
+  tx_supply_nonincreasing_of_supplyEvm (TxVm.vmEnv_ok venv hE orc hO refund finWorld cb) (vmEnv_supplyEvm venv orc hA refund cb) h
+
+/-- **block_supply_bound_over_vm.** Whole blocks over the modelled interpreter: Σ' ≤ Σ + issuance. -/
+theorem block_supply_bound_over_vm (venv : Vm.Env) (hE : Vm.EnvOK venv) (orc : TxVm.Oracle (List Addr)) (hO : TxVm.OracleOk orc)
+    (hA : ∀ m g w, AlphabetOracle (orc m g w)) (refund : SWorld → Nat) (c : BlockCtx) (txs : List Msg) (w : SWorld)
+    {b : BlockOk (List Addr)} (h : processBlock (TxVm.vmEnv venv orc refund finWorld c.coinbase) c txs w = .ok b) :
+    total b.world.bal ≤ total w.bal + issuance c.height c.uncles :=
+  block_supply_bound_of_supplyEvm (TxVm.vmEnv_ok venv hE orc hO refund finWorld c.coinbase) (vmEnv_supplyEvm venv orc hA refund c.coinbase) rfl c txs w h
+
+/-- non-vacuity: an oracle for a callee that is `STOP`, whose call transfers the value to account 3 and whose other effects
+    are empty words; under the spring rule set of C07. -/
+def stopOrc : TxVm.Oracle (List Addr) := fun m _ w _ =>
+  { op := 0, args := [], canTransfer := decide (m.value ≤ lookup w.bal m.sender),
+    nonceEff := fun w' => setNonce w' m.sender (nonceInc (lookup w'.nonce m.sender)),
+    xferEff := fun w' => { w' with bal := (transfer (toS w') m.sender 3 m.value).bal } }
+
+theorem stopOrc_ok : TxVm.OracleOk stopOrc := ⟨fun _ _ _ => rfl, fun _ _ _ _ => rfl⟩
+
+theorem stopOrc_alphabet (m : Msg) (g : Nat) (w : SWorld) : AlphabetOracle (stopOrc m g w) := by
+  intro t
+  refine ⟨fun w' => ⟨[], rfl⟩, fun w' => ⟨[], rfl⟩, fun w' => ⟨[], rfl⟩, fun w' => ⟨[.transfer m.sender 3 m.value], rfl⟩,
+    fun w' => ⟨[], rfl⟩, fun w' => ⟨[], rfl⟩⟩
+
+example : (match transitionDb (TxVm.vmEnv Props.C07.envSpring stopOrc (fun _ => 0) finWorld 2) m0 100000 w0 with
+    | .ok r => some (r.usedGas, r.failed, total r.world.bal, lookup r.world.bal 3) | .error _ => none) = some (21000, false, 1000127, 100) := by decide
 
 end Aqv.Props.C05
